@@ -30,6 +30,7 @@ func runC16(c *core.Ctx, r *core.Reporter) {
 	c.BuildSSA()
 	c16hier(c, r)
 	c16key(c, r)
+	c16coerce(c, r)
 }
 
 // hierarchyLiterals returns the symbol lists a Hierarchy() method can return.
